@@ -49,6 +49,8 @@ def collect():
     for name, ovs in qc.FUNCTIONS.items():
         lst = []
         for f in ovs:
+            if f.__dict__.get('__verif_harness__'):
+                continue  # registered by the harness itself (c20 scheduler hook), not part of /repo
             for t in f.__intypes__:
                 note(t)
             ops = [qc.EvalConstant(None, (object if t is types.Any else t)) for t in f.__intypes__]
@@ -62,7 +64,8 @@ def collect():
             agg = issubclass(f, qc.EvalAggregator)
             lst.append((name, [tname(t) for t in f.__intypes__], tname(out) if out is not None else '?',
                         bool(getattr(f, 'pure', False)), agg))
-        funcs.append((name, lst))
+        if lst or not ovs:
+            funcs.append((name, lst))
     opers = []
     for op, ovs in qc.OPERATORS.items():
         lst = []
